@@ -42,3 +42,15 @@ CLAIMED["C10"] = dict(
     text="rotate.Key is proved against a ghost model of key-manager and certificate-authority state in which the error result of every interface call is a free variable (every single and multiple fault position): the invariant 'recorded primary signing key is live and certified' is a precondition of every manager/authority call (so it holds at every call boundary, i.e. after a crash following any call) and a postcondition of every return; DestroyKeyVersion is only ever called on a key that is not the durable primary; Finalize is never called with an uncertified or dead pending primary; on success the new key is the durable primary and the previous one is destroyed.",
     note="Interface contracts (/verif/stubs/keymgmt.spec) are assumed for all key managers and authorities, including Finalize's partial-failure behaviour; the implementations are not verified against them here. 'A later fault-free rotation succeeds' (liveness) is not claimed.",
 )
+CLAIMED["C12"] = dict(
+    text="Certificate-profile contracts: sign/ops.GoogleCertificateTemplate and nonprod certs.TemplateFromCert are proved, for all inputs, to produce templates whose certificate serial equals the subject serial, with the documented lifetimes (RootValidDays / SignValidDays from NotBefore), CA flag, key usages, PSS/SHA-256 signature algorithm and issuer; gcsca.writeIfAllowed is proved never to rewrite an existing object without overwrite permission; rotate.Key (C10 contract) destroys exactly the previous primary.",
+    note="The history-level clauses (serial one greater than the predecessor's unless overridden, key-version names never reused, wipeout leaves nothing usable) are not proved: no inductive history lemma was built; they are listed as not covered in DESIGN.md. big.Int and time arithmetic are uninterpreted.",
+)
+CLAIMED["C16"] = dict(
+    text="Naming: extractsev/extracttdx.GCETcbObjectName and verify.GCETcbURL are proved equal to the defined string functions (fmt.Sprintf with constant format modelled as concatenation, hex encoding as an injective function), and lemmas over those definitions prove injectivity in the measurement and SEV/TDX separation. Discovery: every network Getter.Get issued by extract.Endorsement is proved to be for a URL derived from a 48-byte measurement (precondition of the Getter contract at the call site); with no event log and no forced fetch a locally found blob is returned byte-for-byte with no Getter call.",
+    note="Event-log locator precedence, efivarfs confinement (securejoin) and SP800-155 event emission/parse-back are not under contract (listed as not covered). extract.Attestation and fromEventLog are represented by unverified (assumed) in-repo contracts.",
+)
+CLAIMED["C11"] = dict(
+    text="gcsca.writeIfAllowed is proved against a ghost object store: an object write never removes an object, an existing object is only rewritten with overwrite permission, and certificate/root writes never touch the manifest object; this is the write primitive of Finalize.",
+    note="Partial: the Finalize/upload loop invariant (every manifest entry names a stored object before the manifest is written; manifest written last) is not yet proved — see DESIGN.md §9; single-object write atomicity is assumed (storage/ops.WriteFile trusted contract).",
+)
